@@ -455,6 +455,67 @@ func main() {
 	unins := []string{}
 	resetVars := []string{}
 	unreset := []string{}
+	// package-level variables of the instrumented packages that are assigned, incremented or have their
+	// address taken anywhere in the instrumented packages (also across packages): process-wide state
+	instrumented := map[*types.Package]bool{}
+	for _, p := range pkgs {
+		instrumented[p.Types] = true
+	}
+	written := map[*types.Var]bool{}
+	for _, p := range pkgs {
+		p := p
+		isGlobal := func(o types.Object) (*types.Var, bool) {
+			v, ok := o.(*types.Var)
+			if !ok || v.Pkg() == nil || !instrumented[v.Pkg()] || v.Parent() != v.Pkg().Scope() {
+				return nil, false
+			}
+			return v, true
+		}
+		for _, f := range p.Syntax {
+			ast.Inspect(f, func(n ast.Node) bool {
+				root := func(e ast.Expr) {
+					for {
+						switch x := e.(type) {
+						case *ast.IndexExpr:
+							e = x.X
+						case *ast.SelectorExpr:
+							if v, ok := isGlobal(p.TypesInfo.Uses[x.Sel]); ok {
+								written[v] = true
+								return
+							}
+							e = x.X
+						case *ast.ParenExpr:
+							e = x.X
+						case *ast.StarExpr:
+							e = x.X
+						case *ast.Ident:
+							if v, ok := isGlobal(p.TypesInfo.Uses[x]); ok {
+								written[v] = true
+							}
+							return
+						default:
+							return
+						}
+					}
+				}
+				switch x := n.(type) {
+				case *ast.AssignStmt:
+					if x.Tok != token.DEFINE {
+						for _, l := range x.Lhs {
+							root(l)
+						}
+					}
+				case *ast.IncDecStmt:
+					root(x.X)
+				case *ast.UnaryExpr:
+					if x.Op == token.AND {
+						root(x.X) // address taken: may be written through the pointer
+					}
+				}
+				return true
+			})
+		}
+	}
 	for _, p := range pkgs {
 		for i, f := range p.Syntax {
 			_ = i
@@ -484,53 +545,6 @@ func main() {
 		}
 		// process-wide caches: generate a reset hook so that every simulated run starts cold
 		var resets []string
-		written := map[*types.Var]bool{}
-		for _, f := range p.Syntax {
-			ast.Inspect(f, func(n ast.Node) bool {
-				root := func(e ast.Expr) {
-					for {
-						switch x := e.(type) {
-						case *ast.IndexExpr:
-							e = x.X
-						case *ast.SelectorExpr:
-							if _, isPkg := p.TypesInfo.Uses[x.Sel].(*types.Var); isPkg {
-								if v := p.TypesInfo.Uses[x.Sel].(*types.Var); v.Pkg() == p.Types && v.Parent() == p.Types.Scope() {
-									written[v] = true
-									return
-								}
-							}
-							e = x.X
-						case *ast.ParenExpr:
-							e = x.X
-						case *ast.StarExpr:
-							e = x.X
-						case *ast.Ident:
-							if v, ok := p.TypesInfo.Uses[x].(*types.Var); ok && v.Pkg() == p.Types && v.Parent() == p.Types.Scope() {
-								written[v] = true
-							}
-							return
-						default:
-							return
-						}
-					}
-				}
-				switch x := n.(type) {
-				case *ast.AssignStmt:
-					if x.Tok != token.DEFINE {
-						for _, l := range x.Lhs {
-							root(l)
-						}
-					}
-				case *ast.IncDecStmt:
-					root(x.X)
-				case *ast.UnaryExpr:
-					if x.Op == token.AND {
-						root(x.X) // address taken: may be written through the pointer
-					}
-				}
-				return true
-			})
-		}
 		for _, f := range p.Syntax {
 			if strings.HasSuffix(p.Fset.Position(f.Package).Filename, "_test.go") {
 				continue
@@ -558,7 +572,9 @@ func main() {
 						}
 						if written[obj] {
 							if _, isMap := obj.Type().Underlying().(*types.Map); !isMap {
-								unreset = append(unreset, p.PkgPath+"."+n.Name)
+								// initialised package-level state that is written at run time: restore the initial value
+								resets = append(resets, "SNAPSHOT "+n.Name)
+								continue
 							}
 						}
 						if _, isMap := obj.Type().Underlying().(*types.Map); isMap && i < len(vs.Values) {
@@ -579,10 +595,19 @@ func main() {
 		}
 		if len(resets) > 0 && len(p.GoFiles) > 0 {
 			dir := filepath.Dir(p.GoFiles[0])
-			src := "//go:build verif\n\npackage " + p.Name + "\n\nimport verifsim \"" + simPath + "\"\n\nfunc init() {\n\tverifsim.RegisterReset(func() {\n"
+			src := "//go:build verif\n\npackage " + p.Name + "\n\nimport verifsim \"" + simPath + "\"\n\nfunc init() {\n"
 			for _, r := range resets {
-				src += "\t\t" + r + "\n"
-				resetVars = append(resetVars, p.PkgPath+"."+r)
+				if strings.HasPrefix(r, "SNAPSHOT ") {
+					src += "\tverifsim.RegisterReset(verifsim.Snapshot(&" + strings.TrimPrefix(r, "SNAPSHOT ") + "))\n"
+					resetVars = append(resetVars, p.PkgPath+"."+r)
+				}
+			}
+			src += "\tverifsim.RegisterReset(func() {\n"
+			for _, r := range resets {
+				if !strings.HasPrefix(r, "SNAPSHOT ") {
+					src += "\t\t" + r + "\n"
+					resetVars = append(resetVars, p.PkgPath+"."+r)
+				}
 			}
 			src += "\t})\n}\n"
 			rel, _ := filepath.Rel(*repo, dir)
